@@ -24,7 +24,7 @@ ASSUMPTIONS = ['refjs token extents (first token, operator token) for the same t
                'placeholders for omitted for(;;) clauses and zero-token nodes are exempt, as the property states; '
                'token-map entries of semicolons the lexer synthesised (observed through the C04 hook) are exempt']
 BUDGET_S = {'quick': 60, 'thorough': 700}
-REQUIRED_HITS = ['tokenless_node', 'nodes_checked', 'token_map_entries_checked', 'operator_position', 'first_token_position']
+REQUIRED_HITS = ['tokenless_node', 'comment_node_position', 'nodes_checked', 'token_map_entries_checked', 'operator_position', 'first_token_position']
 FLOOR = {'quick': 1500, 'thorough': 12000}
 
 
@@ -174,6 +174,45 @@ class Synth(object):
         self.rec.remove()
 
 
+def audit_comment_nodes(ctx, text, res):
+    """the nodes a comment-capturing parser returns in addition: the comment nodes (and their containers) carry
+    positions like every node - offset, line and column agree, and the comment's text is at that offset"""
+    out = []
+    try:
+        tree, err = work.run_impl(text, True)
+    except Exception:
+        return out
+    if tree is None:
+        return out          # C13's to report
+    table = res.lines
+    for path, node in vtree.reflect_walk(tree):
+        kind = vtree.kind_of(node)
+        if kind not in ('LineComment', 'BlockComment', 'Comments'):
+            continue
+        pos, line, col = node.lexpos, node.lineno, node.colno
+        if pos is None and kind == 'Comments':
+            continue
+        ctx.hit('comment_node_position')
+        if not isinstance(pos, int) or line is None or col is None:
+            out.append(('C11:missing_position:%s' % kind, '%s at %s has position %r %r %r' % (kind, path, pos, line, col)))
+            continue
+        if table.linecol(pos) != (line, col):
+            out.append(('C11:line_column_disagree:%s' % kind,
+                        '%s at %s: lexpos %d is %s:%s by ES5 line counting, node says %s:%s' % (
+                            (kind, path, pos) + table.linecol(pos) + (line, col))))
+        if kind != 'Comments':
+            if not text.startswith(node.value, pos):
+                out.append(('C11:not_on_own_token:%s' % kind, '%s at %s has lexpos %d, the source there is %r, its text %r' % (
+                    kind, path, pos, text[pos:pos + 12], node.value[:12])))
+            for tk, entries in (getattr(node, '_token_map', None) or {}).items():
+                for epos, eline, ecol in entries:
+                    if not text.startswith(tk, epos) or table.linecol(epos) != (eline, ecol):
+                        out.append(('C11:token_map_line_column:%s' % kind,
+                                    '%s at %s records %r at offset %r as %s:%s; ES5 counting gives %s:%s, source there %r' % (
+                                        (kind, path, tk[:12], epos, eline, ecol) + table.linecol(epos) + (text[epos:epos + 12],))))
+    return out
+
+
 TOKENLESS = ['', ' ', '\n', '\n\n', '\r\n', '\r', '\u2028\u2029', '   \t', '// c', '// c\n', '/* a */', '/* a\n b */',
              '/* a\r\n b */ ', '\n\n  // x\n', '\ufeff', '\ufeff\n', '/*a*/\r\n\r\n/*b*/ ', '\xa0\x0b\x0c', '//\u2028//\u2029//',
              '\n' * 40, '/*\n\n\n*/\n//x\r//y\r\n', ' \n \n ']
@@ -204,6 +243,12 @@ def check(ctx, synth, text, origin):
     ctx.case(text, stats['nodes'] >= 5, sample={'origin': origin, 'text': text[:160], 'nodes': stats['nodes'],
                                                'token_map_entries': stats['entries']}
              if (stats['nodes'] >= 5 and ctx.rng.random() < 0.003) else None)
+    if not viol and ('/*' in text or '//' in text):
+        viol = audit_comment_nodes(ctx, text, s.ref)
+        if viol:
+            for mech, detail in viol[:1]:
+                ctx.violation(mech, {'text': text, 'with_comments': True}, '%s\ninput: %r' % (detail, text[:300]))
+            return viol
     seen = set()
     for mech, detail in viol:
         if mech in seen:
